@@ -7,12 +7,15 @@ dirs=("$@"); [ ${#dirs[@]} -eq 0 ] && dirs=(seeded/s*)
 missed=0
 for d in "${dirs[@]}"; do
   ids=$(python3 -c "import json,sys; print(' '.join(json.load(open('$d/meta.json'))['detected_by'].keys()))")
+  neut=$(python3 -c "import json; print(json.load(open('$d/meta.json')).get('neutralised_since','')[:60])")
   if ! git -C /repo apply --check "$here/$d/patch.diff" 2>/dev/null; then echo "$(basename $d) STALE (patch does not apply to HEAD)"; missed=1; continue; fi
   caught=""
   out=$(bin/seedeval.sh "$d" $ids 2>&1)
   for id in $ids; do
     if echo "$out" | grep -q " $id exit=1 violations=[1-9]"; then caught="$caught $id"; fi
   done
-  if [ -n "$caught" ]; then echo "$(basename $d) caught by:$caught"; else echo "$(basename $d) MISSED ($ids)"; missed=1; fi
+  if [ -n "$caught" ]; then echo "$(basename $d) caught by:$caught";
+  elif [ -n "$neut" ]; then echo "$(basename $d) NEUTRALISED (no longer breaks the property: $neut...)";
+  else echo "$(basename $d) MISSED ($ids)"; missed=1; fi
 done
 exit $missed
